@@ -18,9 +18,9 @@ lane() {
   local k=0
   for d in "${dirs[@]}"; do
     k=$((k+1)); [ $(( k % LANES )) -eq $(( i % LANES )) ] || continue
-    # the check to run: the one recorded in the last trial of meta.json (normally the owning
+    # the check to run: the owning property's if it is recorded as CAUGHT, else the last CAUGHT one (normally the owning
     # property's check; two round-7 changes are representation defects owned by another check)
-    id=$(python3 -c "import json,sys; m=json.load(open(sys.argv[1])); t=m.get('trials') or [{}]; print(t[-1].get('check') or m.get('property'))" "$ROOT/seeded/$d/meta.json" 2>/dev/null)
+    id=$(python3 -c "import json,sys; m=json.load(open(sys.argv[1])); t=m.get('trials') or [{}]; c=[x.get('check') for x in t if str(x.get('result','')).startswith('CAUGHT')]; p=m.get('property'); print(p if (p in c or not c) else c[-1])" "$ROOT/seeded/$d/meta.json" 2>/dev/null)
     [ -n "$id" ] || id=$(echo "$d" | sed -E 's/^(R[0-9]+-)?(C[0-9]+)-[0-9]+$/\2/')
     git -C "$L/repo" checkout -q -- . ; git -C "$L/repo" clean -fdq
     if ! git -C "$L/repo" apply "$ROOT/seeded/$d/patch.diff" 2>/dev/null; then echo "| $d | $id | PATCH DOES NOT APPLY to the current tree |" >> "$L/out"; continue; fi
